@@ -23,10 +23,10 @@ import (
 func init() {
 	core.Register(&core.Prop{
 		ID: "C12", Level: "exploration",
-		Rule:        "cases are byte streams of 1-40 messages (30 B - 20 KB) with 0-5 KB garbage separators, one third of them hostile (truncated, zero/negative/huge/missing lengths, 9= before 8=, 10= inside data), each read under 12-40 partitions; non-trivial = stream with a message crossing a buffer refill boundary (larger than 4096 or split by a cut); distinct by (message size classes, hostile kind)",
+		Rule:        "cases are byte streams of 1-40 messages (30 B - 20 KB) with 0-5 KB garbage separators, one third of them hostile (truncated, zero/negative/huge/missing lengths, 9= before 8=, 10= inside data), each read under 12-40 partitions; non-trivial = stream with a message crossing a buffer refill boundary (larger than 4096 or split by a cut); distinct by (message size classes, hostile kind). Part connection: a Logon and 1-12 TestRequests written to a real Acceptor's socket in seven different divisions into writes; non-trivial = every such case that came to a verdict",
 		Assumptions: []string{"readers never return (0, nil)"},
 		FloorQuick:  200, FloorThorough: 2000,
-		Parts: []core.Part{{Name: "framing", Run: run, Replay: replay}},
+		Parts: []core.Part{{Name: "framing", Run: run, Replay: replay}, {Name: "connection", Run: runConn}},
 	})
 }
 
@@ -106,10 +106,19 @@ type stream struct {
 func garbage(r *rand.Rand, n int) []byte {
 	g := make([]byte, n)
 	for i := range g {
-		g[i] = "abc\x01=9017 \n\x00"[r.Intn(12)]
+		g[i] = "abc\x01=9017 \n\x008"[r.Intn(13)]
+	}
+	if n > 0 && r.Intn(4) == 0 {
+		g[0] = '8' // separators that begin like a BeginString tag without being one ("8", "80 bytes", "8\r\n")
 	}
 	// must not contain the BeginString marker, nor end in '8' (which could join a following '=')
 	g = bytes.ReplaceAll(g, []byte("8="), []byte("7="))
+	if n > 0 && g[n-1] == '8' {
+		g[n-1] = '7'
+		if n > 1 && g[n-2] == '8' {
+			g[n-2] = 'a' // (the replacement must not create the marker's neighbourhood anew)
+		}
+	}
 	return g
 }
 
